@@ -40,7 +40,7 @@ var vtClauses = []vrClause{
 			"full observation after EVERY step (Has on all 31 words of length <= 4 over {a,b} plus foreign-byte probes, ForEach multiset, Delete result, " +
 			"and the same on tries rebuilt through JSON into New() and into &Trie{} at every step, each rebuilt trie then receiving the remaining ops, with Delete results checked on the way and the same observations at the end of the history); " +
 			"thorough: additionally every history of <= 3 ops over the 14 strings of length 1..3 on {a,b} (28 choices per step) and every history of exactly 5 ops over the 6 strings of length 1..2 whose first operand begins with 'a' (124416 histories; the other half is their a<->b mirror image); " +
-			"then random histories of 200 ops on a 4-letter alphabet with strings of length 1..5 (cheaper observation after each step: " +
+			"two fixed histories using every byte value 0..255 as an edge label (256 one-byte members; 104 two-byte members and 3 deletes); then random histories of 200 ops on a 4-letter alphabet (every third one on the 8 bytes 00 22 7f 80 bf c0 c3 ff) with strings of length 1..5 (cheaper observation after each step: " +
 			"Delete result, ForEach multiset, Has on the prefixes/extensions of the operand and a few pseudo-random words, direct JSON rebuild at every step, " +
 			"plus two tries that are JSON-round-tripped after every op), alternating with random 'deep' histories of 60 ops in which half of the fresh operands " +
 			"have length 8..40 and extensions grow up to 40 bytes (Delete/Has/ForEach/JSON on deep paths), until the time budget ends",
@@ -570,15 +570,31 @@ func vtGenHistory(g *vrGen) {
 	if done && g.Thorough() {
 		done = vtEnumHistories(g, w3, []int{1, 2, 3}, false) && vtEnumHistories(g, w2, []int{5}, true)
 	}
+	// Every byte value as an edge label (the JSON form must keep all 256 apart), alone and below / above other bytes.
+	{
+		var all, pairs []vtOp
+		for b := 0; b < 256; b++ {
+			all = append(all, vtOp{b: []byte{byte(b)}})
+		}
+		for b := 0; b < 256; b += 5 {
+			pairs = append(pairs, vtOp{b: []byte{byte(b), byte(255 - b)}}, vtOp{b: []byte{'k', byte(b)}})
+		}
+		pairs = append(pairs, vtOp{del: true, b: []byte{0x80}}, vtOp{del: true, b: []byte{0xc3}}, vtOp{del: true, b: []byte{'k', 0xff}})
+		g.Case(vtEncodeOps(all))
+		g.Case(vtEncodeOps(pairs))
+	}
 	g.Exhaustive(done)
 	// Random long histories.
 	// Every second history is "deep": half of the fresh operands have length
 	// 8..40 and extensions may grow up to 40 bytes, so that Delete, Has, ForEach
 	// and the JSON round trip work on deep paths (shorter histories: the
 	// observation cost grows with the depth).
-	alpha := []byte("acgt")
 	for round := 0; !g.Expired(); round++ {
 		deep := round%2 == 1
+		alpha := []byte("acgt")
+		if round%3 == 2 { // arbitrary byte values, including the ones JSON has to escape
+			alpha = []byte{0x00, '"', 0x7f, 0x80, 0xbf, 0xc0, 0xc3, 0xff}
+		}
 		nops, maxLen := 200, 5
 		if deep {
 			nops, maxLen = 60, 40
